@@ -18,6 +18,7 @@ Structure of the result
 * removal: the leaf level is always right, but the internal levels are not (F4, F5): witnesses.
 -/
 import OsmoVerif.Proofs.SumTreeInsert
+import OsmoVerif.Proofs.SumTreeIter
 
 namespace OsmoVerif.Props.C16
 open OsmoVerif.SumTree OsmoVerif.Spec
@@ -45,6 +46,31 @@ theorem prefix_correct_of_WF {s : Store} (h : WF s) (k : Ptr) :
 
 /-- ordered iteration -/
 theorem iterate_correct (s : Store) : iterate s = SortedMap.iterate (abs s) := rfl
+
+/-- bounded ordered iteration, every bound shape: `Tree.Iterator(begin, end)` (the store iterator seeks to
+`nodeKey(0, begin)` and scans up to `nodeKey(0, end)`, or to the end of the leaf level when `end` is the nil slice)
+returns exactly the sorted map's entries with `begin ≤ key` and, for a non-nil `end`, `key < end` — also for
+`begin > end`, `begin = end`, absent bounds, and the empty non-nil `end` (which selects nothing). -/
+theorem iterRange_correct_of_WF {s : Store} (h : WF s) (b e : Ptr) :
+    iterRange s b e = SortedMap.range (abs s) b.key (endBound e) := scan_eq_range b.key (endBound e) h.good.1
+
+/-- `Tree.ReverseIterator(begin, end)`: the same entries in descending order -/
+theorem iterRangeRev_correct_of_WF {s : Store} (h : WF s) (b e : Ptr) :
+    iterRangeRev s b e = (SortedMap.range (abs s) b.key (endBound e)).reverse := by
+  rw [iterRangeRev, iterRange_correct_of_WF h]
+
+/-- an open upper end (`end == nil`) never cuts the scan short: every key `≥ begin` is visited, whether or not it
+extends `begin` as a byte prefix -/
+theorem iterRange_open_end_complete {s : Store} (h : WF s) (b : Ptr) (kv : Key × Int)
+    (hm : kv ∈ abs s) (hge : ¬ kv.1 < b.key) : kv ∈ iterRange s b Ptr.nil := by
+  rw [iterRange_correct_of_WF h, SortedMap.range, List.mem_filter]
+  refine ⟨hm, ?_⟩
+  have : decide (¬ kv.1 < b.key) = true := decide_eq_true hge
+  rw [this]
+  rfl
+
+/-- unbounded iteration is the whole map (no invariant needed) -/
+theorem iterRange_unbounded (s : Store) : iterRange s Ptr.nil Ptr.nil = iterate s := scan_nil_none s.leaves
 
 /-- the reference quantities are consistent: total = left + exact + right for every key -/
 theorem spec_total_split {s : Store} (h : WF s) (k : Key) :
@@ -192,5 +218,12 @@ example : (do let s0 ← new 2; let s1 ← set s0 (Ptr.of [97]) 5; let s2 ← se
 
 example : splitAcc ex [98] = some (6, 3, 7) := by decide
 example : subset ex (Ptr.of [97]) (Ptr.of [98]) = some 9 := by decide
+-- bounded iteration: open end from a present key (later keys do NOT extend it), absent begin with a bound,
+-- reverse with an upper bound, empty non-nil end
+example : iterRange ex (Ptr.of [97]) Ptr.nil = [([97], 5), ([97, 97], 1), ([98], 3), ([99], 7)] := by decide
+example : iterRange ex (Ptr.of [97, 0]) (Ptr.of [99]) = [([97, 97], 1), ([98], 3)] := by decide
+example : iterRangeRev ex Ptr.nil (Ptr.of [98]) = [([97, 97], 1), ([97], 5), ([], 0)] := by decide
+example : iterRange ex Ptr.nil (Ptr.of []) = [] := by decide
+example : iterRange ex (Ptr.of [99]) (Ptr.of [97]) = [] := by decide
 
 end OsmoVerif.Props.C16
